@@ -36,6 +36,7 @@ struct Op {
     int st = 1, at = 0, grp = 0; uint32_t ybits = 0; int meta = 0; int en = 0; int sigtype = 0;
     int sl[5] = {3, 3, 3, 3, 3};   // string lengths for defs (-1 = NULL pointer)
     int cold = 0;               // reads: 1 = execute on a fresh reader too
+    int fw = -1; int64_t fb = 0; // engine B focus: stop after this op's fw-th backend write (+ fb bytes of the next); -1 = none
     std::string to_text() const;
     bool from_text(const std::string &line);
 };
@@ -52,7 +53,10 @@ struct Plan {
     FaultCfg faults;
     uint64_t read_seed = 0;
     int variant_flags = 0;
-    std::vector<uint32_t> decisions; bool has_decisions = false;   // explicit schedule (replay / minimised)
+    std::vector<uint32_t> decisions; bool has_decisions = false;
+    int64_t focus_k = -1, focus_b = 0;   // engine B focus inside jls_wr_open / after the last op (absolute write index)
+    std::vector<std::string> focus;      // engine C focus: explicit alterations
+   // explicit schedule (replay / minimised)
     std::vector<Op> ops;        // writer program (definition, data, flush, close)
     std::vector<Op> reads;      // reader program
     std::string to_text() const;
